@@ -19,7 +19,7 @@ import elementpath.aliases as ta
 
 from elementpath.namespaces import XML_ID, XML_LANG
 from elementpath.datatypes import AnyURI, Float, DayTimeDuration, YearMonthDuration, \
-    StringProxy, AnyAtomicType, Duration
+    StringProxy, AnyAtomicType, Duration, NumericProxy, UntypedAtomic
 from elementpath.helpers import get_double
 from elementpath.xpath_nodes import XPathNode, ElementNode, TextNode, CommentNode, \
     ProcessingInstructionNode, DocumentNode, EtreeElementNode
@@ -304,6 +304,8 @@ def evaluate__substring(self: XPathFunction, context: ta.ContextType = None) -> 
     item: str = self.get_argument(context, default='', cls=str)
     try:
         start = self.get_argument(context, index=1, required=True)
+        if isinstance(start, (XPathNode, UntypedAtomic)):
+            start = self.validated_value(start, NumericProxy, index=1)  # number() / cast of untyped
         if math.isinf(start) and start < 0 and len(self) == 2:
             return item  # every position is greater than or equal to -INF
         if math.isnan(start) or math.isinf(start):
@@ -321,6 +323,8 @@ def evaluate__substring(self: XPathFunction, context: ta.ContextType = None) -> 
     else:
         try:
             length = self.get_argument(context, index=2, required=True)
+            if isinstance(length, (XPathNode, UntypedAtomic)):
+                length = self.validated_value(length, NumericProxy, index=2)
             if math.isnan(length) or length <= 0:
                 return ''
         except TypeError:
